@@ -49,7 +49,7 @@ def plan(tier, seed):
 def floors(tier):
     return {"distinct_nontrivial": 200, "unwind.close": 200, "unwind.exc": 50, "op:full": 500, "op:take": 100,
             "op:abandon": 100, "op:drop": 100, "op:boom_raised": 50, "op:the": 50, "cls:dup_domain": 50,
-            "cls:caching_off": 100, "cache.check.hit": 500, "cls:ruletree_history": 100, "cls:shared_expression_pool": 60, "cls:twin:nexttree": 30, "cls:twin:kwvar": 30, "cls:variable_whose_domain_has_no_instance": 60, "cls:twin:concat": 25, "cls:twin:flatsub": 25, "cls:twin:sharedconc": 20, "cls:twin:blockstyle": 20, "cls:twin:shareddomain": 40, "cls:twin:ix_with_empty_collections": 400, "cls:twin:ix": 40}
+            "cls:caching_off": 100, "cache.check.hit": 500, "cls:ruletree_history": 100, "cls:shared_expression_pool": 60, "cls:twin:nexttree": 30, "cls:twin:kwvar": 30, "cls:variable_whose_domain_has_no_instance": 60, "cls:twin:concat": 25, "cls:twin:flatsub": 25, "cls:twin:sharedconc": 20, "cls:twin:blockstyle": 20, "cls:twin:shareddomain": 40, "cls:scale:big_pool": 60, "cls:twin:ix_with_empty_collections": 400, "cls:twin:ix": 40}
 
 
 def cases(spec, ctx):
@@ -120,6 +120,24 @@ def cases(spec, ctx):
                 if not any(o[0] == "raise" for o in ops):
                     ops.insert(rng.randrange(len(ops) + 1), ["raise", 0, rng.randint(1, 6)])
             yield {"ruletree": rt, "ops": ops, "caching": rng.random() < 0.65}
+            continue
+        if rng.random() < 0.03:
+            # SIZE: a pool of 2-3 queries over ONE variable with 120-400 objects (conditions with alternatives, so that more than
+            # a hundred rows go through de-duplicating nodes and operator caches), full evaluations and partial ones in turn
+            world = D.random_world(rng, np_=(120, 400), nq=(1, 2), hi=9, rich=False)
+            A_ = lambda f: ["v", 0, [["a", f]]]
+            pool = []
+            for _ in range(rng.randint(2, 3)):
+                c1 = ["cmp", rng.choice(["<", "<=", ">", ">=", "!="]), A_("a"), rng.choice([A_("b"), ["lit", rng.randint(2, 7)]])]
+                c2 = ["cmp", rng.choice(["<", "<=", ">", ">=", "!="]), A_("b"), ["lit", rng.randint(2, 7)]]
+                pool.append({"cond": [rng.choice(["or", "and", "or"]), c1, c2], "sel": [0], "fault": False})
+            ops = []
+            for _ in range(rng.randint(4, 8)):
+                kind = rng.choice(["full", "full", "full", "take", "drop"])
+                qi = rng.randrange(len(pool))
+                ops.append([kind, qi] if kind == "full" else [kind, qi, rng.randint(1, 3)])
+            yield {"world": world, "kinds": ["P"], "pool": pool, "ops": ops, "caching": rng.random() < 0.8, "dup": None, "no_instance": None,
+                   "scale": "big_pool"}
             continue
         nv = rng.choice([2, 2, 3])
         kinds = [rng.choice("PQ") for _ in range(nv)]
@@ -697,6 +715,8 @@ def check_case(case, ctx):
         return check_ruletree_case(case, ctx)
     world = D.build_world(case["world"])
     ctx.cls("cls:caching_on" if case["caching"] else "cls:caching_off")
+    if case.get("scale"):
+        ctx.cls("cls:scale:" + case["scale"])
     if case.get("dup"):
         ctx.cls("cls:dup_domain")
     if case.get("no_instance") is not None:
